@@ -254,6 +254,40 @@ static void odd_mode_case(uint64_t idx, vh_rng *r)
     }
 }
 
+/* model mode, fork: an object keyed in one process is used in a forked child (pre-forked workers).  The child must compute what
+   the single-block functions compute; the parent's object must be unaffected by what the child did. */
+#include <sys/wait.h>
+#include <unistd.h>
+static void fork_case(uint64_t idx, const vh_cipher *c, vh_rng *r)
+{
+    int be, nbe = maxbe[c->id] + 1; uint8_t key[48], in[19 * 16], tw[19 * 16], want[19 * 16], got[19 * 16]; size_t len = 19 * (size_t)c->bb, b;
+    unsigned klen = c->id == CIPH_MANTIS ? 16 : c->bb * (1 + vh_below(r, 3)), rounds = 5 + vh_below(r, 4);
+    Skinny128Key_t k128; Skinny64Key_t k64; MantisKey_t km;
+    vh_rand_bytes(r, key, 48); vh_rand_bytes(r, in, sizeof(in)); vh_rand_bytes(r, tw, sizeof(tw));
+    if (c->id == CIPH_S128) { skinny128_set_key(&k128, key, klen); for (b = 0; b < 19; ++b) skinny128_ecb_encrypt(want + 16 * b, in + 16 * b, &k128); }
+    else if (c->id == CIPH_S64) { skinny64_set_key(&k64, key, klen); for (b = 0; b < 19; ++b) skinny64_ecb_encrypt(want + 8 * b, in + 8 * b, &k64); }
+    else { mantis_set_key(&km, key, 16, rounds, MANTIS_ENCRYPT); for (b = 0; b < 19; ++b) mantis_ecb_crypt_tweaked(want + 8 * b, in + 8 * b, tw + 8 * b, &km); }
+    for (be = 0; be < nbe; ++be) {
+        vh_handle h; pid_t pid; int st = 0, okp; char pfx[160];
+        memset(&h, 0, sizeof(h)); vh_set_cap(be);
+        snprintf(pfx, sizeof(pfx), "%s:%s-parallel:%s:used-in-a-forked-child", prop, c->name, vh_backend_names[be]); vh_set_crash_key(pfx);
+        c->par_init(&h); c->par_set_key(&h, key, klen, rounds, MANTIS_ENCRYPT);
+        fflush(stdout);
+        pid = fork();
+        if (pid == 0) { int ok = c->par_encrypt(got, in, tw, len, &h) && !memcmp(got, want, len); c->par_cleanup(&h); _exit(ok ? 0 : 1); }
+        if (pid > 0) waitpid(pid, &st, 0);
+        okp = c->par_encrypt(got, in, tw, len, &h) && !memcmp(got, want, len);
+        c->par_cleanup(&h);
+        VH_COUNT("objects_used_in_a_forked_child", 1);
+        if (pid > 0 && (!WIFEXITED(st) || WEXITSTATUS(st) != 0 || !okp)) {
+            char key_[240], d[200];
+            snprintf(key_, sizeof(key_), "%s:%s-parallel:%s:used-in-a-forked-child:%s", prop, c->name, vh_backend_names[be], okp ? "child-result-differs-from-single-block-functions" : "parent-result-differs-after-fork");
+            snprintf(d, sizeof(d), "{\"child_status\":%d,\"driver\":\"drv_par\",\"mode\":\"model\",\"case\":%llu}", st, (unsigned long long)idx);
+            vh_violation(key_, d, d);
+        }
+    }
+}
+
 static void one_case(uint64_t idx)
 {
     vh_rng r;
@@ -273,6 +307,7 @@ static void one_case(uint64_t idx)
     if (!strcmp(vh_arg_mode, "twin") && idx % 40 == 9) { ragged_big(idx, c, &r); return; }
     if (!strcmp(vh_arg_mode, "xbe") && idx % 40 == 23) { change_count_case(idx, c, &r); return; }
     if (!strcmp(vh_arg_mode, "model") && idx % 40 == 29 && idx >= nstruct) { odd_mode_case(idx, &r); return; }
+    if (!strcmp(vh_arg_mode, "model") && idx % 40 == 33 && idx >= nstruct) { fork_case(idx, c, &r); return; }
     if (!strcmp(vh_arg_mode, "model") && idx < nstruct) { gen_structured(&H, c, idx / CIPH_N, &r); VH_COUNT("structured_cases", 1); }
     else phist_gen(&H, c, &r, g);
     VH_COUNT("histories", 1); VH_COUNT("ops", H.n);
